@@ -59,7 +59,8 @@ func funcKey(fn *ssa.Function) string {
 }
 
 type Assump struct {
-	T Term
+	T   Term
+	Tag string // "lemma": proved ghost assertion, may be dropped when discharging other obligations
 }
 
 type Oblig struct {
@@ -174,7 +175,7 @@ func (e *Engine) assume(t Term) {
 	if t.S == "true" {
 		return
 	}
-	e.assumps = append(e.assumps, Assump{t})
+	e.assumps = append(e.assumps, Assump{T: t})
 }
 
 type snapshot struct{ nd, na, no int }
@@ -374,16 +375,16 @@ func (e *Engine) strConst(s string) Term {
 	e.strConsts[s] = t
 	e.strOrder = append(e.strOrder, s)
 	sl := e.declareFun("strlen", []Sort{SInt}, e.ar.idxSort())
-	e.assumps = append(e.assumps, Assump{Eq(Term{fmt.Sprintf("(%s %s)", sl, t.S), e.ar.idxSort()}, e.ar.idxLit(int64(len(s))))})
+	e.assumps = append(e.assumps, Assump{T: Eq(Term{fmt.Sprintf("(%s %s)", sl, t.S), e.ar.idxSort()}, e.ar.idxLit(int64(len(s))))})
 	if len(s) <= 16 {
 		sa := e.declareFun("strat", []Sort{SInt, e.ar.idxSort()}, e.byteSort())
 		for i := 0; i < len(s); i++ {
-			e.assumps = append(e.assumps, Assump{Eq(Term{fmt.Sprintf("(%s %s %s)", sa, t.S, e.ar.idxLit(int64(i)).S), e.byteSort()}, e.ar.intLit(bigInt(int64(s[i])), types.Typ[types.Uint8]))})
+			e.assumps = append(e.assumps, Assump{T: Eq(Term{fmt.Sprintf("(%s %s %s)", sa, t.S, e.ar.idxLit(int64(i)).S), e.byteSort()}, e.ar.intLit(bigInt(int64(s[i])), types.Typ[types.Uint8]))})
 		}
 	}
 	// distinct from previous constants
 	for _, o := range e.strOrder[:len(e.strOrder)-1] {
-		e.assumps = append(e.assumps, Assump{Not(Eq(e.strConsts[o], t))})
+		e.assumps = append(e.assumps, Assump{T: Not(Eq(e.strConsts[o], t))})
 	}
 	return t
 }
@@ -412,5 +413,6 @@ func (e *Engine) idxPrelude() string {
 	if e.ar.mode == ModeBV {
 		plus = "bvadd"
 	}
-	return fmt.Sprintf("(declare-fun idx (%s %s) %s)\n(assert (forall ((a %s) (b %s)) (! (= (idx a b) (%s a b)) :pattern ((idx a b)))))\n", s, s, s, s, s, plus)
+	return fmt.Sprintf("(declare-fun idx (%s %s) %s)\n(assert (forall ((a %s) (b %s)) (! (= (idx a b) (%s a b)) :pattern ((idx a b)))))\n", s, s, s, s, s, plus) +
+		fmt.Sprintf("(declare-fun mark (%s) Bool)\n(assert (forall ((a %s)) (! (mark a) :pattern ((mark a)))))\n", s, s)
 }
